@@ -31,7 +31,14 @@ fn arg(args: &[String], key: &str, default: &str) -> String {
 
 fn main() {
     // panics of the code under test are observed through catch_unwind; keep stderr quiet
-    std::panic::set_hook(Box::new(|_| {}));
+    std::panic::set_hook(Box::new(|info| {
+        let s = info.to_string();
+        let _ = crate::util::LAST_PANIC.try_with(|p| {
+            if let Ok(mut p) = p.try_borrow_mut() {
+                *p = s;
+            }
+        });
+    }));
     let args: Vec<String> = std::env::args().collect();
     if args.len() < 3 {
         eprintln!("usage: pvh run <Cxx> [--tier T] [--seed N] [--driver P] [--out F] | pvh replay <file> [--driver P]");
